@@ -17,6 +17,18 @@ CHECKS = {
    text="TLC explores every interleaving of operation starts, task executions, chunk reads and writes for small plans and shows NoBadRead; every recorded run of generated programs on single-threaded / threads / processes executors x options, with write latency injected inside the store, is judged by the monitor: a data chunk of a produced array is read only after its producer's operation-end, which comes after the return of every write. A missing barrier is an ordering fact in the trace, not a lucky race.",
    note="Trusted: TLC; CLOCK_MONOTONIC being system-wide (cross-process ordering of non-overlapping call/return intervals); the LocalStore wrapper seeing every store access (zarr LocalStore is the only store used locally). Bounds: plans <= 5 ops in the model; generated programs <= 6 steps in runs.",
    design_ref="DESIGN.md §5 C07, §4.9"),
+ "C02": dict(
+   engine="Optimize+OptTrace",
+   technique="TLA+ spec Optimize.tla (fusion eligibility, DAG rewrite, source ordering) model-checked by TLC over DAG shapes x projections x budgets x requested/forced sets; real pre/post DAGs of every optimizer setting validated by the TLA+ monitor OptTrace.tla; optimized values replayed against the unoptimized run and NumPy",
+   text="TLC proves RewriteValid and SourcesAreLeaves for every combination within bounds on the transcribed optimizer. For generated programs (repeated arguments, diamonds, mixed depths, requested intermediates, reductions, region stores) x 6 optimizer settings, the monitor judges the real DAG pair (requested arrays kept and produced, consumed arrays kept, fused sources = leaves in order) and the harness compares values with the unoptimized run and NumPy and checks that every requested array is materialized.",
+   note="Trusted: TLC; the unoptimized run as value oracle (itself compared with NumPy). Bounds: DAGs <= 5 ops in the model, programs <= 7 steps in replays. Open finding F17 (legacy optimizer + stream argument) is reported as KNOWN-FINDING.",
+   design_ref="DESIGN.md §5 C02, §4.6"),
+ "C04": dict(
+   engine="Optimize+OptTrace",
+   technique="TLA+ spec Optimize.tla (projected memory of fused ops, admission) model-checked by TLC with vacuity switches; budgets placed at m-1/m/m+1 of every real projection, admission traces and real pre/post projections validated by the TLA+ monitor OptTrace.tla",
+   text="TLC shows NothingBeforeValidate, FusedNotLess, DefaultStaysInBudget for all small DAGs x projections x budgets x forced sets. Against the code, each program is rebuilt with allowed_mem exactly at, one byte below and one byte above each operation's projection (x reserved_mem x optimizer x entry point); the monitor requires refusal iff some projection exceeds the budget, no executor entry / store write / new file before a refusal, fused projection >= each replaced op's, and unforced optimization never leaving the budget.",
+   note="Trusted: TLC; ValueError before executor entry as the observable form of validate(); directory listing of the work dir for 'nothing written'.",
+   design_ref="DESIGN.md §5 C04, §4.6"),
  "C05": dict(
    engine="DagExec+TaskTrace",
    technique="TLA+ spec DagExec.tla (SingleWriter, Covered, FinalGood; a shared-chunk plan must lose an update) model-checked by TLC; store/zarr records of layout-stressing programs run one task at a time validated by the TLA+ monitor TaskTrace.tla",
